@@ -272,6 +272,11 @@ def run(facts, rep, ctx):
             rep.ok(R3, {"window": W})
         else:
             rep.violation(R3, b.name, "window-cap", "window cap %s: displacement-1 does not fit 12 bits" % hex(W), where)
+        R5 = rep.rule("R08.5", "back-references reach only into data already produced: the match search reports (length, displacement) of a real window position (shared contract, see C10-R10.3)", floor=5)
+        import c10
+        sb = facts.body(enc.search["callee"])
+        if sb is not None:
+            c10.search_contract(facts, rep, R5, sb)
         if thr and all(t >= 3 for t in thr):
             rep.ok(R3, {"threshold": sorted(thr)})
         else:
